@@ -11,7 +11,8 @@ from vf import contracts
 ID = "C03"
 BUDGET = {"quick": 160000, "thorough": 4000000}
 REQUIRED = ["contract:Chop.calculate", "class:truth", "class:unrealisable", "judged:not-coarser", "judged:inverted",
-            "branch:uniform", "branch:r<1", "branch:r>1", "judged:grading-inverted"]
+            "branch:uniform", "branch:r<1", "branch:r>1", "judged:grading-inverted",
+            "judged:inverted:fresh-object", "judged:inverted:same-object-after-calculate"]
 MIN_KEYS = 40
 RULE = (
     "L = 10^U(-3,3); a consistent 'truth' progression (n in 1..200, r in [0.5,2], densified at 1 +- {0,3e-8,9e-8,1.1e-7,"
@@ -207,8 +208,14 @@ def run_case(ctx, case):
     if "count" not in kw:
         if not _judge_sizes(ctx, case, L, kw, n, E, pair, strict_lower=True):
             return
-    # reversing the chop: same count, reciprocal expansion
-    inv = Chop(**kw)
+    # reversing the chop: same count, reciprocal expansion - on a fresh object and (every other case) on the very object
+    # that was calculated before, as the library does when a chop is handed to an oppositely numbered neighbour
+    if int(L * 1e7) % 2 == 0:
+        inv = Chop(**kw)
+        ctx.count("judged:inverted:fresh-object")
+    else:
+        inv = chop
+        ctx.count("judged:inverted:same-object-after-calculate")
     inv.invert()
     try:
         n2, E2 = inv.calculate(L)
